@@ -685,6 +685,28 @@ ORDER_SEEDS = [
     ('route_schema_ns_order',
      'namespace stone_cfg\nalias A1 = String\nalias A2 = String\nstruct Route\n    x A1 = "a"\n    y A2 = "b"\n',
      'namespace stone_cfg\nalias A2 = String\nalias A1 = String\nstruct Route\n    x A1 = "a"\n    y A2 = "b"\n'),
+    # the same component through the annotations and the annotation types of stone_cfg alone (the aliases in one order)
+    ('route_schema_ns_order',
+     'namespace stone_cfg\nannotation_type T1\n    x Int32 = 1\nannotation_type T2\n    y Int32 = 2\nannotation N1 = T1()\n'
+     'annotation N2 = T2()\nalias A1 = String\nstruct Route\n    x A1 = "a"\n',
+     'namespace stone_cfg\nannotation_type T2\n    y Int32 = 2\nannotation_type T1\n    x Int32 = 1\nannotation N2 = T2()\n'
+     'annotation N1 = T1()\nalias A1 = String\nstruct Route\n    x A1 = "a"\n'),
+    ('route_schema_ns_order',
+     'namespace stone_cfg\nannotation_type T1\n    x Int32 = 1\nannotation N1 = T1()\nannotation N2 = T1(x=2)\n'
+     'struct Route\n    x String = "a"\n',
+     'namespace stone_cfg\nannotation_type T1\n    x Int32 = 1\nannotation N2 = T1(x=2)\nannotation N1 = T1()\n'
+     'struct Route\n    x String = "a"\n'),
+]
+
+
+# (component, files in one order, the same files in another order)
+FILE_ORDER_SEEDS = [
+    # a struct extended from two namespaces by structs of the SAME name: only (namespace, name) orders its subtypes
+    ('subtypes_order',
+     [['ns.stone', 'namespace ns\nstruct P\n    a String\nstruct C extends P\n    b String\n'],
+      ['b.stone', 'namespace b\nimport ns\nstruct C extends ns.P\n    c String\n']],
+     [['b.stone', 'namespace b\nimport ns\nstruct C extends ns.P\n    c String\n'],
+      ['ns.stone', 'namespace ns\nstruct P\n    a String\nstruct C extends P\n    b String\n']]),
 ]
 
 
@@ -710,6 +732,8 @@ def suite_seeds(ck):
         judge_backends(ck, [(name, ref)] + [tuple(x) for x in extra], [(name, var)] + [tuple(x) for x in extra],
                        'seed-def-perm', ('python_types', 'python_type_stubs'), core.scratch('stone-verif-c11-seed-'),
                        do_shrink=False)
+    for comp, ref_files, var_files in FILE_ORDER_SEEDS:
+        judge_pair(ck, ref_files, var_files, 'seed-file-perm', {'seed': comp}, do_shrink=False)
 
 
 # ------------------------------------------------------------------------------------------------ stdin
